@@ -12,6 +12,7 @@
 From Coq Require Import List NArith ZArith Bool Arith.
 From PV Require Import Lib.ListX Model.FmtLit Model.FmtPratt Model.Fmt Model.FmtStmt Model.FmtInst
   Proofs.FmtPrattProofs Proofs.FmtProofs Proofs.FmtStmtProofs Proofs.FmtLitProofs Proofs.FmtInstProofs Gen.GenCodegen.
+From PV Require Model.LexerInterp Proofs.FmtInterpProofs.
 Import ListNotations.
 Local Open Scope N_scope.
 
@@ -190,9 +191,26 @@ Section UnicodeClasses.
     contains c_backtick s = false -> delim is_alnum rest ->
     lex_word is_alpha is_alnum I_prql (write_ident_part I_prql s ++ rest) = Some (WIdent s, rest).
   Proof. exact (write_ident_lexes is_alpha is_alnum ascii_alpha ascii_alnum alpha_alnum I_prql fmt_ident_tables). Qed.
+
+  (* ---- s-/f-strings, for ALL part lists the interpolation parser can produce (`canon`: strings non-empty and maximal,
+          paths non-empty without backticks, no `}` in a format specifier; any characters otherwise, line breaks included):
+          (1) the text display_interpolation writes -- prefix, `"`, the parts with `\`, `"`, `{`, `}` escaped in strings and
+          `\`, `"` escaped in identifiers and format specifiers (commit 4d5b01d), `"` -- lexes, through the string lexer
+          model, to the content `interp_content parts`; (2) the interpolation parser -- C17's model of
+          parser/interpolation.rs, Model/LexerInterp.v -- splits that content into exactly `parts` (positions dropped). *)
+  Theorem fmt_interpolation_roundtrip : forall sql parts, FmtInterpProofs.canon parts = true ->
+    lex_string (tl (interp_text R_prql sql parts)) = Some (interp_content R_prql parts, []) /\
+    option_map (map (fun t => FmtInterpProofs.item_part (LexerInterp.ikind t)))
+      (LexerInterp.interp_lex is_alpha is_alnum (interp_content R_prql parts)) = Some parts.
+  Proof.
+    intros sql parts Hc. split.
+    - destruct (FmtInterpProofs.interp_text_lexes R_prql sql parts) as [p [_ H]]. exact H.
+    - exact (FmtInterpProofs.interp_content_parses is_alpha is_alnum ascii_alpha ascii_alnum I_prql fmt_ident_tables parts Hc).
+  Qed.
 End UnicodeClasses.
 Print Assumptions fmt_expr_ident_roundtrip.
 Print Assumptions fmt_ident_roundtrip.
+Print Assumptions fmt_interpolation_roundtrip.
 
 (* non-vacuity and regression: concrete trees satisfy the hypotheses; the former counterexamples now round-trip *)
 Example ex_wf_tree : wf_expr (EBin 5 (idn 97) (EUn 0 (idn 98))).
@@ -230,6 +248,12 @@ Proof. vm_compute. repeat split; reflexivity. Qed.
 Example ex_former_alias_pipeline : wf_prog alias_pipeline_witness = true /\ known_prog alias_pipeline_witness = false
   /\ parse_prog_prql 40 (fmt_prog_toks alias_pipeline_witness) = Some alias_pipeline_witness.
 Proof. vm_compute. repeat split; reflexivity. Qed.
+(* f"a {x.`b c`:>10}}} \"q\" " : strings with braces / quotes, a path with a quoted part, a format specifier *)
+Example ex_interpolation :
+  let parts := [IStr [97; 32]; IExpr [[120]; [98; 32; 99]] (Some [62; 49; 48]); IStr [125; 32; 34; 113; 34; 10]] in
+  FmtInterpProofs.canon parts = true /\
+  interp_text R_prql false parts = [102;34;97;32;123;120;46;96;98;32;99;96;58;62;49;48;125;125;125;32;92;34;113;92;34;10;34].
+Proof. vm_compute. split; reflexivity. Qed.
 Example ex_alias_text : fmt_text (EBin 5 (idn 97) (EAlias [120] (idn 98))) = [97; 32; 43; 32; 40; 120; 32; 61; 32; 98; 41]   (* a + (x = b) *)
   /\ fmt_text (ERng (par_atom 97) (idn 98)) = [40; 36; 97; 41; 46; 46; 98]                                                (* ($a)..b *)
   /\ fmt_text (ERngL (EUn 0 (par_atom 97))) = [45; 40; 36; 97; 41; 46; 46].                                               (* -($a).. *)
